@@ -192,7 +192,7 @@ PROPS = {
         "design_ref": "DESIGN.md section 4 (C04)",
         "technique": "Verus: the real handle_http_conn_once and handle_http_conn (handler future replaced by its output, rule D4) with ghost "
                      "state inserted at the handler call sites (run counter, connection snapshot) and obligations at every run, at the "
-                     "drop-connection returns and at the end of the per-connection loop body, over the HttpConn method contracts of C05",
+                     "drop-connection returns and at the end of the per-connection loop body, over the HttpConn method contracts of C05; read_http_head through its contract in unit head (every request sent is seen once whatever the delivery schedule: the outcome is a function of the bytes, not of how they were cut into reads)",
         "level_text": "Deductive proof for every request, every threshold S and every handler (an arbitrary FnOnce(Request) -> Response): "
                       "the handler is run once per request, or a second time exactly when its first answer was the instruction to fetch the "
                       "body, and then with the fetched body (a file of the declared length within the handler's limit, no longer pending); a "
